@@ -304,10 +304,68 @@ def nest_program(pid, outer, inner, position, rng, third=None):
     return pid, outer, dsl, rty, ref_val, ranges, 100, tags, ref_names, (position == "capture")
 
 
+def scope_programs(pid0):
+    """Scope programs (C12 / C13): the caller has variables with the same names (and types) as `let`-named branches.
+    Every user expression keeps its call-site meaning: step-0 operands, step-0 captures and the handler expression see the
+    caller's variables, captures of later steps see the branches' latest step results (C12), the macro's value is
+    f(..) for the f the user wrote (C13). The handler stands at every position among the branches."""
+    out = []
+    pid = pid0
+    for kind in ALL:
+        asy = kind in ASYNC
+        tr = kind.startswith("try_")
+        if not asy:
+            prelude = "let x = Some(1000u32); let y = Some(2000u32);"
+            br = ["let x = Some(1u32) |> |v| v + 1",
+                  "let y = Some(5u32) |> |v| v + 2 ~|> |v| v + 1",
+                  "Some(7u32) |> { let k = x; move |v| v + k.unwrap() }",
+                  "Some(0u32) ~|> { let k = x.unwrap() + y.unwrap(); move |v| v + k }"]
+            if tr:
+                hs = [("map", "map => move |a, b, c, d| (a, b, c, d, x, y)"), ("and_then", "and_then => move |a, b, c, d| Some((a, b, c, d, x, y))")]
+                rty = "Option<(u32, u32, u32, u32, Option<u32>, Option<u32>)>"
+                exp = "Some((2, 8, 1007, 9, Some(1000), Some(2000)))"
+            else:
+                hs = [("then", "then => move |a, b, c, d| (a, b, c, d, x, y)")]
+                rty = "(Option<u32>, Option<u32>, Option<u32>, Option<u32>, Option<u32>, Option<u32>)"
+                exp = "(Some(2), Some(8), Some(1007), Some(9), Some(1000), Some(2000))"
+        elif not tr:
+            prelude = "let x = 1000u32; let y = 2000u32;"
+            br = ["let x = futures::future::ready(1u32) |> |v| v + 1",
+                  "let y = futures::future::ready(5u32) |> |v| v + 2 ~|> |v| v + 1",
+                  "futures::future::ready(7u32) |> { let k = x; move |v| v + k }",
+                  "futures::future::ready(0u32) ~|> { let k = x + y; move |v| v + k }"]
+            hs = [("then", "then => move |a, b, c, d| futures::future::ready((a, b, c, d, x, y))")]
+            rty = "(u32, u32, u32, u32, u32, u32)"
+            exp = "(2, 8, 1007, 9, 1000, 2000)"
+        else:
+            prelude = "let x: Result<u32, u8> = Ok(1000); let y: Result<u32, u8> = Ok(2000);"
+            R = "Result<u32, u8>"
+            br = ["let x = futures::future::ok::<u32, u8>(1) |> |r: %s| r.map(|v| v + 1)" % R,
+                  "let y = futures::future::ok::<u32, u8>(5) |> |r: %s| r.map(|v| v + 2) ~|> |r: %s| r.map(|v| v + 1)" % (R, R),
+                  "futures::future::ok::<u32, u8>(7) |> { let k = x; move |r: %s| r.map(|v| v + k.unwrap()) }" % R,
+                  "futures::future::ok::<u32, u8>(0) ~|> { let k = x.unwrap() + y.unwrap(); move |r: %s| r.map(|v| v + k) }" % R]
+            hs = [("map", "map => move |a, b, c, d| (a, b, c, d, x, y)"),
+                  ("and_then", "and_then => move |a, b, c, d| futures::future::ok::<_, u8>((a, b, c, d, x, y))")]
+            rty = "Result<(u32, u32, u32, u32, Result<u32, u8>, Result<u32, u8>), u8>"
+            exp = "Ok::<_, u8>((2u32, 8u32, 1007u32, 9u32, Ok::<u32, u8>(1000), Ok::<u32, u8>(2000)))"
+        for hname, h in hs:
+            for pos in range(len(br) + 1):
+                parts = list(br)
+                parts.insert(pos, h)
+                dsl = ", ".join(parts)
+                tags = "scope,scope:%s@%d" % (hname, pos)
+                out.append((pid, kind, dsl, rty, exp, [(1, 2)], 4, tags, "", False, prelude))
+                pid += 1
+    return out
+
+
 def render(entry):
+    prelude = ""
     if len(entry) == 8:
         pid, kind, dsl, rty, ref_final, ranges, max_id, tags = entry
         ref_pre, has_cap = "", False
+    elif len(entry) == 11:
+        pid, kind, dsl, rty, ref_final, ranges, max_id, tags, ref_pre, has_cap, prelude = entry
     else:
         pid, kind, dsl, rty, ref_final, ranges, max_id, tags, ref_pre, has_cap = entry
     asy = kind in ASYNC
@@ -321,10 +379,10 @@ def render(entry):
     else:
         ref_body = "%s %s let __res: %s = %s; __res" % ("zc(2);" if has_cap else "", ref_pre, rty, ref_final)
     if asy:
-        m_fn = "pub fn m_%d() -> String { run_async(async { let __res: %s = %s! { %s }.await; dbg(__res) }) }" % (pid, rty, kind, dsl)
+        m_fn = "pub fn m_%d() -> String { run_async(async { %s let __res: %s = %s! { %s }.await; dbg(__res) }) }" % (pid, prelude, rty, kind, dsl)
         r_fn = "pub fn r_%d() -> String { dbg({ %s }) }" % (pid, ref_body)
     else:
-        m_fn = "pub fn m_%d() -> String { let __res: %s = %s! { %s }; dbg(__res) }" % (pid, rty, kind, dsl)
+        m_fn = "pub fn m_%d() -> String { %s let __res: %s = %s! { %s }; dbg(__res) }" % (pid, prelude, rty, kind, dsl)
         r_fn = "pub fn r_%d() -> String { dbg({ %s }) }" % (pid, ref_body)
     brs = ", ".join("(%d, %d)" % r for r in ranges)
     text = dsl if len(dsl) < 1500 else dsl[:700] + " ... " + dsl[-700:]
@@ -369,6 +427,8 @@ def build_corpus(tier, seed):
     for outer, inner, third in triples:
         entries.append(nest_program(pid, outer, inner, "operand", rng, third=third))
         pid += 1
+    # (d) scope programs: caller variables named like `let`-named branches, handler at every position
+    entries += scope_programs(pid)
     return entries
 
 
